@@ -234,6 +234,30 @@ def slotRunDep {π : Type} (sel : Selector π) (thr : XF) (itv : Nat) (root : Wa
   | _, s, 0 => s
   | count, s, n + 1 => slotRunDep sel thr itv root (count + 1) (slotStepDep sel thr itv count root s) n
 
+/-- `pad_and_maybe_zero_preconditioners` with `reset_preconditioner` (`reset_frequency = round(1/(1-beta2))`): the warm start
+handed to the root is `where(step % reset_frequency == 0, 0, 1) * stored` — a COPY; the stored value itself is not touched -/
+def warmStart {π : Type} (rf : Option Nat) (zero : π → π) (count : Nat) (p : π) : π :=
+  match rf with
+  | none => p
+  | some f => if count % f == 0 then zero p else p
+
+/-- one `update` call with a periodically reset warm start: the gate still chooses between the candidate and the value
+that was stored BEFORE the call -/
+def slotStepReset {π : Type} (sel : Selector π) (thr : XF) (itv : Nat) (rf : Option Nat) (zero : π → π) (count : Nat)
+    (root : WarmRoot π) (s : Slot π) : Slot π :=
+  slotStep sel thr itv count s (root count (warmStart rf zero count s.precond))
+
+def slotRunReset {π : Type} (sel : Selector π) (thr : XF) (itv : Nat) (rf : Option Nat) (zero : π → π) (root : WarmRoot π) :
+    Nat → Slot π → Nat → Slot π
+  | _, s, 0 => s
+  | count, s, n + 1 => slotRunReset sel thr itv rf zero root (count + 1) (slotStepReset sel thr itv rf zero count root s) n
+
+/-- a WRONG variant (negative theorems only): the reset applied in place to the list that is also the OLD operand of the gate -/
+def slotStepResetInPlace {π : Type} (sel : Selector π) (thr : XF) (itv : Nat) (rf : Option Nat) (zero : π → π) (count : Nat)
+    (root : WarmRoot π) (s : Slot π) : Slot π :=
+  let p' := warmStart rf zero count s.precond
+  slotStep sel thr itv count { s with precond := p' } (root count p')
+
 /-- all slots of the optimizer state advance with the same counter: slot `k` receives the `k`-th root result -/
 def stateStep {π : Type} (sel : Selector π) (thr : XF) (itv count : Nat) (ss : List (Slot π)) (ins : List (Inp π)) :
     List (Slot π) :=
